@@ -19,8 +19,10 @@ TEXT = "BUG-9"
 NAMES = ["app", "core", "lib", "mid", "util", "zeta"]        # repository id = position (sorted() order of the names)
 RULE = ("col: 2-3 repositories (app->lib; app->lib,util; app->mid->lib), component with 1-2 release lines and merges, parent "
         "branches forking/merging, pins moving by 0-2 component builds and never decreasing along a path (25%: the oldest "
-        "parent commits pin a version that is no build tag), tags on half the commits, commit times tight (30%), spread "
-        "inside the windows (60%) or anywhere (10%, not judged), both supply orders; ord: random dependency graphs over <=6 repositories incl. cycles, self-dependencies and "
+        "parent commits pin a version that is no build tag), tags on half the commits, commit times tight (25%), spread "
+        "inside the windows (40%), component builds days apart in any order w.r.t. its branches with the owner starting right "
+        "inside the 1-day component cut-off of the oldest build the component must report (25%: a fix built on the newer "
+        "line, backported later) or anywhere (10%, mostly not judged), both supply orders; ord: random dependency graphs over <=6 repositories incl. cycles, self-dependencies and "
         "unknown components, shuffled supply order; parent and mid branch names also with numbers of different width "
         "(release/5.9 vs release/5.10); the component map of a repository is configured on the class, on the object only, or "
         "on the object with a contradicting class-level map (a third each); every collection is analysed twice (the second answer must equal the "
@@ -30,7 +32,8 @@ TRUSTED = ["tests/mock_git.py (synthetic git objects fed to the real ak.ghist co
            "sorted() on repository names (the model sorts the ranks of the names)",
            "iteration order of the set `relevant_cmpnts` is not observable: bumps are compared sorted by component"]
 ASSUMPTIONS = ["commit times inside the cut-off windows (quantifier): inside a repository at most 30 days between a branch head and any "
-               "younger commit, no parent commit a day or more older than a commit of one of its components (Hist.InWindow, "
+               "younger commit, no parent commit a day or more older than the oldest build the component's report must show - the "
+               "earliest builds containing a matching commit, computed from the history (Hist.InWindow, "
                "CompWindow in the theorems; outside, model and code are compared, the oracle does not judge)",
                "component build numbers increase along history; pins never decrease along a path, read as containment: the newly "
                "pinned component build contains the previously pinned one, a pin that names no build of the component (unknown "
@@ -265,8 +268,9 @@ def oracle(case, replies):
 def in_windows(repos):
     """the quantifier "commit times within the cut-off windows", decided from the times alone: in every repository no
     commit is more than 30 days younger than the head of a release/master branch (no branch is dropped as obsolete),
-    and no commit of a parent repository is a day or more older than some commit of one of its components (a bound
-    that keeps the component relevant whichever of its builds end up in the report)"""
+    and no commit of a parent repository is a day or more older than the oldest component build that the component's
+    report must show (the earliest builds containing a matching commit: the component's earliest report-related build is
+    at most that old, so the component stays relevant down to the parent's roots)"""
     by = {r["name"]: r for r in repos}
     ts = {n: [G.commit_ts(c, i) for i, c in enumerate(r["hist"]["commits"])] for n, r in by.items()}
     for n, r in by.items():
@@ -276,7 +280,13 @@ def in_windows(repos):
             if (nm in ("master", "main") or nm.startswith("release/")) and max(ts[n]) > ts[n][hd] + 30 * G.DAY:
                 return False
         for d in r["deps"]:
-            if d in ts and ts[d] and min(ts[n]) + G.DAY <= max(ts[d]):
+            if d not in ts or not ts[d]:
+                continue
+            u = surely_reported_min(by[d]["hist"])
+            if u == "?" or (u is None and by[d]["deps"]):
+                u = max(ts[d])          # order of the component's branches undecided, or a component that may have
+                #                         builds reported only for the bumps of its own components: the safe bound
+            if u is not None and min(ts[n]) + G.DAY <= u:
                 return False
     return True
 
@@ -295,6 +305,46 @@ def check_order(order, deps):
 def single_line(h):
     n = [nm for nm, _ in h["refs"] if nm in ("master", "main") or nm.startswith("release/")]
     return len(n) == 1
+
+
+def line_of(ch):
+    """commit -> position of the release line it belongs to (the first branch, in the order of the statement, whose head
+    reaches it); None when the statement does not decide the order of the branches"""
+    from harness.c06 import spec_order
+    order = spec_order(ch["refs"])
+    if order is None:
+        return None
+    out = {}
+    for k, (nm, hd) in enumerate(order):
+        for c in G.anc(ch, hd):
+            out.setdefault(c, k)
+    return out
+
+
+def surely_reported_min(ch):
+    """an upper bound of the time of the component's earliest report-related build, computed from the history alone: a
+    matching commit is listed under one of the earliest builds of the branch that contain it (C06), so that build is
+    reported - the youngest of these candidates bounds it, and the oldest such bound over the matching commits is taken.  None: nothing matches, the component has no report-related builds.  "?" when undecided."""
+    from harness.c06 import spec_order
+    order = spec_order(ch["refs"])
+    if order is None:
+        return "?"
+    cs = ch["commits"]
+    times, seen, ancs = [], set(), {}
+    for nm, hd in order:
+        A = G.anc(ch, hd)
+        elig = [c for c in A - seen if cs[c]["t"] or c == hd]
+        for e in elig:
+            ancs[e] = G.anc(ch, e)
+        for c in A:
+            if not cs[c]["m"]:
+                continue
+            cont = [e for e in elig if c in ancs[e]]
+            mins = [G.commit_ts(cs[e], e) for e in cont if not any(e2 != e and e2 in ancs[e] for e2 in cont)]
+            if mins:
+                times.append(max(mins))     # the commit is listed under ONE of its earliest builds: that one is reported
+        seen |= A
+    return min(times) if times else None
 
 
 def ver_to_commit(ch):
@@ -375,13 +425,17 @@ STRICT_MERGES = True
 
 def check_included(repos, reports):
     """included_at(R) for parent branch P = the minimal (w.r.t. ancestry) own builds / unbuilt head of P whose pinned
-    version contains R.  Judged for components with a single release line only (see DESIGN.md, C07 Search)."""
+    version contains R.  Components with several release lines: judged per line, when the pins of a parent branch stay
+    inside one line (a build of a line is shipped by the versions of that line)."""
     from harness.c06 import spec_order
     byname = {r["name"]: r for r in repos}
     for comp in repos:
         ch = comp["hist"]
         cid = NAMES.index(comp["name"])
-        if not single_line(ch) or cid not in reports:
+        if cid not in reports:
+            continue
+        lines = None if single_line(ch) else line_of(ch)
+        if not single_line(ch) and lines is None:
             continue
         owners = [r for r in repos if comp["name"] in r["deps"]]
         if not owners:
@@ -424,9 +478,20 @@ def check_included(repos, reports):
                         ac = G.anc(oh, c)
                         if any(c2 != c and c2 in ac and pinc[c2] is not None for c2 in elig):
                             judged = False      # outside the quantifier: the pin goes back to a version that names nothing
+                line = None
+                if judged and lines is not None:
+                    # several release lines: judged when the pins of the branch stay inside one of them - the builds
+                    # of that line are shipped, builds of other lines are never shipped by this branch
+                    ks = {lines.get(pc) for pc in pinc.values() if pc is not None}
+                    if len(ks) > 1 or None in ks:
+                        judged = False
+                    elif ks:
+                        line = ks.pop()
                 if not judged:
                     break
                 for R in exp:
+                    if lines is not None and lines.get(R) != line:
+                        continue
                     cont = set()
                     for c in elig:
                         pc = pinc[c]
@@ -641,7 +706,7 @@ def add_col_times(rng, repos, mode=None):
     component with reported builds stays relevant down to the parent's roots, whichever of its builds are reported)"""
     if mode is None:
         x = rng.random()
-        mode = "tight" if x < 0.3 else "spread" if x < 0.9 else "loose"
+        mode = "tight" if x < 0.25 else "spread" if x < 0.65 else "backport" if x < 0.9 else "loose"
     if mode == "tight":
         return
     if mode == "loose":         # anywhere, also outside the windows: compared with the model, not judged
@@ -653,6 +718,35 @@ def add_col_times(rng, repos, mode=None):
         return
     by = {r["name"]: r for r in repos}
     done = {}
+    if mode == "backport":
+        # the builds of a component are days apart, in any order w.r.t. its branches (a fix built on the newer line
+        # first, backported later); the owner's commits start right inside the component cut-off window: less than a
+        # day before the oldest build the component's report must show
+        def place_b(name):
+            if name in done or name not in by:
+                return
+            r = by[name]
+            for d in r["deps"]:
+                place_b(d)
+            cs = r["hist"]["commits"]
+            bounds = []
+            for d in r["deps"]:
+                if d in by and by[d]["hist"]["commits"]:
+                    u = surely_reported_min(by[d]["hist"])
+                    if u == "?" or (u is None and by[d]["deps"]):
+                        u = max(c["ts"] for c in by[d]["hist"]["commits"])
+                    if u is not None:
+                        bounds.append(u)
+            base = max(0, max(bounds) - G.DAY + 1 + rng.randrange(7200)) if bounds else rng.randrange(2 * G.DAY)
+            span = rng.choice([3 * G.DAY, 8 * G.DAY, 20 * G.DAY])
+            for c in cs:
+                c["ts"] = base + rng.randrange(span + 1)
+            if bounds and cs:
+                rng.choice(cs)["ts"] = base          # some commit right at the start of the window
+            done[name] = True
+        for r in repos:
+            place_b(r["name"])
+        return
 
     def place(name):
         if name in done or name not in by:
@@ -804,6 +898,19 @@ def corpus():
             "refs": [["release/5.2", 2]]}
     out.append(mk_case([{"name": "app", "deps": ["lib"], "hist": app2}, {"name": "lib", "deps": [], "hist": lib2}],
                        "corpus-component-diamond"))
+    # the fix is built on release/10.21 first and backported to release/10.20 three days later; the owner takes 10.21.5
+    # an hour after it was built: the component's earliest report-related build is not in the branch that is read first
+    D = G.DAY
+    lib3 = {"commits": [{"p": [], "t": [], "m": 0, "pins": {}, "ts": 0},
+                        {"p": [0], "t": [[10, 21, 5, 5]], "m": 1, "pins": {}, "ts": D},
+                        {"p": [0], "t": [[10, 20, 3, 3]], "m": 1, "pins": {}, "ts": 4 * D}],
+            "refs": [["release/10.20", 2], ["release/10.21", 1]]}
+    app3 = {"commits": [{"p": [], "t": [[5, 9, 1, 1]], "m": 0, "pins": {"lib": [0, 0, 1]}, "ts": D // 2},
+                        {"p": [0], "t": [[5, 9, 2, 2]], "m": 0, "pins": {"lib": [10, 21, 5]}, "ts": D + 3600},
+                        {"p": [1], "t": [[5, 9, 3, 3]], "m": 0, "pins": {"lib": [10, 21, 5]}, "ts": 4 * D + D // 2}],
+            "refs": [["release/5.9", 2]]}
+    out.append(mk_case([{"name": "app", "deps": ["lib"], "hist": app3}, {"name": "lib", "deps": [], "hist": lib3}],
+                       "corpus-backport-days-later"))
     return out
 
 
@@ -878,8 +985,9 @@ LEVEL_NOTE = ("Found and repaired while building this check: get_rbuilds_in_bump
               "not judged. Why theorems keep the _partial suffix: parent branches whose pins move from one component release line "
               "with reported builds to another one are not covered by the git-level theorem (the code links component builds "
               "inside one release line only: such a parent build registers the builds of the new line; the statement of the "
-              "property does not spell this case out — components with several release lines are compared with the model, the "
-              "oracle judges single-line components); the spec-level theorems read 'never decreases' as containment, which "
+              "property does not spell this case out — the oracle judges components with several release lines per line, when "
+              "the pins of a parent branch stay inside one line, and leaves the other scenarios to the comparison with the "
+              "model); the spec-level theorems read 'never decreases' as containment, which "
               "excludes such moves too. Trusted: Lean kernel, translator (constants incl. the two cut-off periods), adapter, mock "
               "git, sampled correspondence (2-3 repositories, linear and DAG-shaped components and parents, 1-2 component release "
               "lines, commits with two build tags, early pins of versions that are no build tag, commit times inside the "
